@@ -124,6 +124,27 @@ def cloned_symbols():
     return out
 
 
+def all_symbol_names(expr):
+    """(declared display_latex, expected printed name) of every symbol / quantity / function head of an expression,
+    collected without the Reader (so that structure-only items get their names checked too)"""
+    from symplyphysics.core.symbols.symbols import DimensionSymbol  # pylint: disable=import-outside-toplevel
+    from symplyphysics.core.operations.symbolic import Symbolic  # pylint: disable=import-outside-toplevel
+    from sympy.core.function import AppliedUndef  # pylint: disable=import-outside-toplevel
+    out, todo = {}, [expr]
+    while todo:
+        for node in sympy.preorder_traversal(todo.pop()):
+            if isinstance(node, Symbolic):
+                todo.append(node.factor)
+                continue
+            obj = node.func if isinstance(node, AppliedUndef) else node
+            if isinstance(obj, DimensionSymbol):
+                try:
+                    out[obj.display_latex] = rc.printed_name(obj, "latex")
+                except Exception:  # pylint: disable=broad-except
+                    pass
+    return sorted(out.items())
+
+
 class TexReader(rc.Reader):
     """reference reading for LaTeX: special constructs are outside the reader's grammar"""
 
@@ -168,6 +189,11 @@ def make_case(key, origin, expr, vkey, **extra):
     except rc.StructureOnly as e:
         c["sides"] = None
         c["reason"] = f"outside the reader's grammar: {e}"
+        c["mangled"] = []
+        for raw, printed in all_symbol_names(expr):
+            why = name_tex_scripts(printed) or name_mangled(raw, printed)
+            if why:
+                c["mangled"].append((raw, printed, why))
     except rc.Unreadable as e:
         c["sides"] = None
         c["reason"] = f"no reference reading: {e}"
@@ -176,6 +202,55 @@ def make_case(key, origin, expr, vkey, **extra):
 
 def gen_samples(seed: int, n: int):
     return c17.gen_samples(seed, n, render=latex_str, symbols=sample_symbols(), max_len=160)
+
+
+def negsum_forms(S, c, x, rng=None):
+    """Mul(-1, Add) as SymPy's own simplifiers return it (factor_terms, factor) and as `-(a + b)` in a law's source form,
+    alone and inside sums (first term), exponents, numerators, denominators, products, functions.  Directly built canonical
+    trees never contain it (the minus is distributed), so it needs its own shapes.  Not generated: `c - (a + b)` as a
+    NON-first term, which both printers get wrong on the pinned tree (latent defect, see design notes)."""
+    from sympy import Mul, Add, Pow  # pylint: disable=import-outside-toplevel
+    neg = Mul(-1, S, evaluate=False)
+    out = [("factor_terms", sympy.factor_terms(-S)), ("neg", neg),
+        ("neg+c", Add(neg, c, evaluate=False)), ("x^neg", Pow(x, neg, evaluate=False)),
+        ("neg/c", Mul(neg, Pow(c, -1, evaluate=False), evaluate=False)),
+        ("c/neg", Mul(c, Pow(neg, -1, evaluate=False), evaluate=False)),
+        ("2*neg", Mul(2, neg, evaluate=False)), ("x*neg", Mul(x, neg, evaluate=False)),
+        ("exp(neg)", sympy.exp(neg, evaluate=False)), ("neg^2", Pow(neg, 2, evaluate=False)),
+        ("x^factor_terms", x**sympy.factor_terms(-S)), ("factor_terms/c", sympy.factor_terms(-S) / c),
+        ("factor", sympy.factor(sympy.expand(-S * c))), ("x+factor_terms2", sympy.factor_terms(sympy.expand(-2 * S)) + x)]
+    return out if rng is None else [rng.choice(out)]
+
+
+def gen_negsums(seed: int, n: int):
+    """(index, label, expression): negsum_forms over seeded sums of 2-3 small terms"""
+    rng = random.Random(seed ^ 0xA5A5)
+    syms = sample_symbols()
+    gen = rc.ExprGen(rng, syms)
+    out, seen, tries = [], set(), 0
+    while len(out) < n and tries < 10 * n:
+        tries += 1
+        terms = []
+        for _ in range(rng.choice([2, 2, 3])):
+            t = rng.choice(syms)
+            r = rng.random()
+            if r < 0.3:
+                t = rng.choice([2, 3, 5]) * t
+            elif r < 0.5:
+                t = t * rng.choice(syms)
+            elif r < 0.6:
+                t = t / rng.choice(syms)
+            terms.append(t)
+        S = sympy.Add(*terms)
+        if not S.is_Add:
+            continue
+        label, e = negsum_forms(S, rng.choice(syms), rng.choice(syms), rng)[0]
+        k = sympy.srepr(e)
+        if k in seen or not isinstance(e, sympy.Expr):
+            continue
+        seen.add(k)
+        out.append((tries, label, e))
+    return out
 
 
 def gen_source_forms(seed: int, n: int):
@@ -247,6 +322,19 @@ def run(ctx):
     for label, e in rc.curated_expressions(sample_symbols()):
         c = make_case(f"curated:{label}", "curated", e, f"C18:curated:{label}", srepr=sympy.srepr(e))
         cases.append(c)
+    syms = sample_symbols()
+    for label, e in negsum_forms(syms[0] + syms[1], syms[2], syms[5]):
+        cases.append(make_case(f"curated:negsum:{label}", "curated", e, f"C18:curated:negsum:{label}", srepr=sympy.srepr(e)))
+    cl = syms[-4:]
+    for label, e in [("cloned-square", cl[0]**2), ("cloned-quotient", cl[1]**2 / cl[0] + cl[2] * cl[3]),
+            ("cloned-product", 2 * cl[0] * cl[1] * syms[0])]:
+        cases.append(make_case(f"curated:{label}", "curated", e, f"C18:curated:{label}", srepr=sympy.srepr(e)))
+    # (v) Mul(-1, Add) shapes over seeded sums
+    for idx, label, e in gen_negsums(sub_seed, ctx.pick(80, 800)):
+        c = make_case(f"negsum#{idx}:{label}", "negsum", e, None, sample_index=idx, srepr=sympy.srepr(e))
+        c["vkey"] = f"C18:negsum:{c['s']}" if c["s"] is not None else f"C18:negsum-raises:{sympy.srepr(e)[:300]}"
+        cases.append(c)
+    ctx.coverage["negsum_cases"] = sum(1 for c in cases if c["origin"] == "negsum")
     ctx.coverage["curated_cases"] = sum(1 for c in cases if c["origin"] == "curated")
     ctx.log(f"{len(cases)} cases built")
 
@@ -435,8 +523,18 @@ def replay(ctx, rep):
             if idx == rep.get("sample_index"):
                 expr = e
                 break
+    elif rep.get("origin") == "negsum" or item.startswith("negsum#"):
+        sub_seed = random.Random(rep["seed"]).getrandbits(48)
+        for idx, label, e in gen_negsums(sub_seed, 80 if rep.get("tier", "quick") == "quick" else 800):
+            if idx == rep.get("sample_index"):
+                expr = e
     elif rep.get("origin") == "curated" or item.startswith("curated:"):
-        for label, e in rc.curated_expressions(sample_symbols()):
+        syms = sample_symbols()
+        cl = syms[-4:]
+        pool = list(rc.curated_expressions(syms)) + [(f"negsum:{l}", e) for l, e in negsum_forms(syms[0] + syms[1], syms[2], syms[5])]
+        pool += [("cloned-square", cl[0]**2), ("cloned-quotient", cl[1]**2 / cl[0] + cl[2] * cl[3]),
+            ("cloned-product", 2 * cl[0] * cl[1] * syms[0])]
+        for label, e in pool:
             if f"curated:{label}" == item:
                 expr = e
     else:
